@@ -121,7 +121,7 @@ class Sym(object):
 
 DEFAULT_W = dict(query=30, refit=12, threshold=10, calibrate=6, handout=8,
                  mutate=3, restart=7, clone=4, ambient=5, eigsh=3, set_nondata=4,
-                 failfit=3, fault=0, new=6, sweep=0)
+                 failfit=3, fault=0, new=6, sweep=0, swap_pre=3)
 
 
 def gen_history(seed, tier, classes=None, weights=None, n_ops=(6, 16),
@@ -285,6 +285,22 @@ def gen_history(seed, tier, classes=None, weights=None, n_ops=(6, 16),
     elif k == "eigsh":
       ops.append(dict(op="eigsh", mode=r.choice(["seeded", "seeded", "fail"]),
                       seed=r.randrange(10**6)))
+    elif k == "swap_pre":
+      # replace the preprocessor (array / list / store over another dataset, or
+      # none) and refit: the new preprocessor must be the one that is used
+      other = r.choice(dkeys)
+      newpre = r.choice(["ndarray", "list", "store", None])
+      op = dict(op="set_params", h=s.hid, params={}, pre=newpre)
+      if newpre:
+        op["pre_data"] = other
+      D2 = _data(datasets[other])
+      p2 = params_for(s.name, r, D2)
+      if p2 is not None:
+        op["params"] = p2
+        ops.append(op)
+        s.pre, s.data = newpre, other
+        s.fitted = False
+        fit_op(s, other)
     elif k == "set_nondata":
       cp = cls_params(s.name)
       cand = {}
